@@ -83,12 +83,16 @@ def replay(ctx, r):
 
 def selftest(ctx, r):
     """spec -> impl binding: corrupted expectations must be reported by the replay"""
+    tried = 0
     for rec in r.iter_emitted():
         if rec['demanded'] and rec['n'] >= 3 and rec['nSim'] >= 2 and rec['cls'] == 'trailing' \
                 and max(rec['model']) > 0 and rec['design'] == 'vector':
             clean, _, _, _ = S.check_case(rec, seed=1, variant=0)
+            tried += 1
             if clean:
-                raise MachineryError(f'self-test: clean vector reports {clean[0][0]}')
+                if tried > 40:
+                    break
+                continue            # the implementation is wrong on this vector (reported by the replay)
             a = copy.deepcopy(rec)
             a['rdm'][0][0] = a['rdm'][0][0] + a['rdm'][0][1]          # expected RDM entry + 1
             b = copy.deepcopy(rec)
@@ -103,7 +107,8 @@ def selftest(ctx, r):
                 raise MachineryError(f'self-test: corrupted expectation not detected: {keys}')
             ctx.extra['vector_selftest'] = {'corrupted rdm / draws / design reported as': keys}
             return
-    raise MachineryError('self-test: no suitable vector')
+    ctx.extra['vector_selftest'] = 'skipped: no vector with a clean replay'
+    ctx.extra['_selftest_skipped'] = True
 
 
 def run(ctx):
@@ -142,10 +147,12 @@ def run(ctx):
         r = ctx.tlc('MC_Simulation', S.cfg(mode, salt=salt, **kw), name=name, timeout=1700)
         if r.n_emitted < 50:
             raise MachineryError(f'TLC emitted only {r.n_emitted} configurations in run {name}')
+        t, ng, err = replay(ctx, r)
         if first is None:
             first = r
             selftest(ctx, r)
-        t, ng, err = replay(ctx, r)
+            if ctx.extra.pop('_selftest_skipped', False) and not ctx.new_violations:
+                raise MachineryError('self-test: no suitable vector although the replay reported nothing')
         total += t
         neg += ng
         maxerr = max(maxerr, err)
